@@ -140,7 +140,7 @@ def _run_batch(label, cmd_prefix, batch, logic, timeout_s):
         f.write(text)
     t = time.time()
     try:
-        p = subprocess.run(cmd_prefix + [path], stdout=subprocess.PIPE, stderr=subprocess.STDOUT, text=True, timeout=timeout_s * max(1, len(batch)) + 60)
+        p = subprocess.run(cmd_prefix + [path], stdout=subprocess.PIPE, stderr=subprocess.STDOUT, text=True, timeout=min(timeout_s * max(1, len(batch)) + 60, 3 * 3600))
     except subprocess.TimeoutExpired:
         raise Inconclusive('%s timed out on cross-check batch %s' % (label, path))
     dt = time.time() - t
@@ -162,7 +162,7 @@ def _run_batch(label, cmd_prefix, batch, logic, timeout_s):
 
 def cross_check(batch, timeout_s=300, logic='ALL', tier='thorough', seed=0, quick_z3=150, quick_cvc5=30):
     """batch: list of (name, [z3 conds], expected 'sat'|'unsat').
-    Re-decide with the independent binaries /usr/bin/z3 4.8.12 and cvc5 1.0.3.  thorough: every obligation with both;
+    Re-decide with the independent binaries /usr/bin/z3 4.8.12 and cvc5 1.0.3.  thorough: every obligation with both (at most 4000 each);
     quick: a seeded sample (quick_z3 / quick_cvc5 obligations).  Any error line or disagreement -> Inconclusive; an obligation
     the second solver cannot decide within its per-query budget is counted in `*_undecided_*` (z3 5.1.0's verdict stands)."""
     import random
@@ -170,8 +170,12 @@ def cross_check(batch, timeout_s=300, logic='ALL', tier='thorough', seed=0, quic
     if not batch:
         return stats
     rnd = random.Random(seed + 7)
-    b1 = batch if (tier == 'thorough' or len(batch) <= quick_z3) else rnd.sample(batch, quick_z3)
-    b2 = batch if (tier == 'thorough' or len(batch) <= quick_cvc5) else rnd.sample(batch, quick_cvc5)
+    # thorough: every obligation, up to 4000 per solver (beyond that a seeded sample of 4000: stated in the evidence)
+    cap1 = 4000 if tier == 'thorough' else quick_z3
+    cap2 = 4000 if tier == 'thorough' else quick_cvc5
+    b1 = batch if len(batch) <= cap1 else rnd.sample(batch, cap1)
+    b2 = batch if len(batch) <= cap2 else rnd.sample(batch, cap2)
+    stats['sampled'] = len(batch) > min(cap1, cap2)
 
     def split(b):
         # pure bit-vector obligations go out under QF_BV (much faster in cvc5), the rest under `logic`
